@@ -222,10 +222,18 @@ impl Prop {
 
     /// "Plain" values render the same through every formatter: usable in template holes.
     pub fn plain_text(&self) -> Option<String> {
+        // values whose text is the same through `evt.msg()` (Display of the value) and through every
+        // sink's own rendering of a hole: strings / chars / integers / booleans captured by default or
+        // `as_value`, anything captured `as_display` (its Display text) or `as_debug` (its Debug text).
+        // The text itself may be hostile: quotes, backslashes, control characters, non-ASCII, braces.
         match (&self.model, self.cap) {
-            (M::Str(s), Cap::Typed | Cap::Display) if s.chars().all(|c| c.is_ascii_alphanumeric() || c == ' ' || c == '-') => Some(s.clone()),
-            (m, Cap::Typed | Cap::Display) if m.as_int().is_some() => m.int_text(),
-            (M::Bool(b), Cap::Typed | Cap::Display) => Some(b.to_string()),
+            (M::Str(s), Cap::Typed) => Some(s.clone()),
+            (M::Char(c), Cap::Typed) => Some(c.to_string()),
+            (m, Cap::Typed) if m.as_int().is_some() => m.int_text(),
+            (M::Bool(b), Cap::Typed) => Some(b.to_string()),
+            (M::Error(_), _) => None,
+            (m, Cap::Display) => Some(m.to_string()),
+            (m, Cap::Debug) => Some(format!("{:?}", m)),
             (M::I64(n), Cap::NoisyDisplay) => Some(format!("noisy{}", n)),
             (M::I64(n), Cap::NoisySval) => Some(n.to_string()),
             _ => None,
